@@ -4,7 +4,7 @@ PROP = dict(
     id="C08",
     corr=["Model/C08Corr.vo", "Model/C08Fsm.vo", "Model/FsmCorr.vo", "Model/C08Invoice.vo"],
     design_ref="DESIGN.md §6 C08",
-    technique="Coq theorems over (a) the shared executable model of swap/actions.go CreateAndBroadcastOpeningTransaction (message fields = wallet result + invoice of that step, by symbolic execution of the action) and (b) an executable model of CreateOpeningTransaction of the CLN/LND adapters (GetVoutAndVerify) and of LiquidOnChain for ALL wallet funding results; invoice constants regenerated from the running code; tied by vm_compute correspondence against the REAL adapters on fake wallets that place the swap output in every position, and by a monitor on observed steps of the REAL swap state machine comparing the stored / sent message with what the (fake) wallet and Lightning node were asked and answered",
+    technique="Coq theorems over (a) the shared executable model of swap/actions.go CreateAndBroadcastOpeningTransaction (message fields = wallet result + invoice of that step, by symbolic execution of the action) and (b) an executable model of CreateOpeningTransaction of the CLN/LND adapters (GetVoutAndVerify) and of LiquidOnChain for ALL wallet funding results; invoice constants regenerated from the running code; tied by vm_compute correspondence against the REAL adapters on fake wallets that place the swap output in every position, and by a monitor on observed steps of the REAL swap state machine comparing the stored / sent message with what the (fake) wallet and Lightning node were asked and answered; plus the real GetPayreq of both Lightning adapters (the node is asked for exactly the requested amount / expiry / final CLTV / preimage)",
     level_text="Machine-checked Coq proofs: the stored opening_tx_broadcasted message carries exactly the txid and output index the wallet adapter returned for the opening amount, the invoice the node answered to ONE request of u64(claim*1000) msat (= claim*1000 below 2^64/1000 sat) on the preimage whose hash is locked in the output, with expiry 86400/3600 s and final CLTV 503/29 (Bitcoin/Liquid, constants regenerated from the code), and on Liquid the swap's blinding key; for EVERY funded transaction containing the requested output (any order and number of outputs and inputs, change of any amount incl. the swap amount) the CLN and LND adapters report the id of the transaction they hand over for broadcast and an index whose output carries the swap amount under the swap script, and LiquidOnChain reports the index of the output with the swap script, which the swap's blinding key unblinds to the swap amount whenever the transaction would pass validation. Both index statements were false of the code as found (findings F_C08_1, F_C08_2, repaired).",
     level_note="Trusted: Coq kernel; hand-written models (shared swap action model compared step by step with the real state machine; adapter models compared every run with the real adapters on fake wallet RPCs: result, txid, vout, fee, broadcast transaction); SHA-256 / P2WSH program and Liquid blinding are oracle inputs (the harness computes the P2WSH script from the script bytes itself and unblinds with go-elements); the wallet is assumed to fund the requested output (a wallet that omits it is outside the property); BOLT-11 encoding of the invoice is the Lightning node's (the fake records amount / hash / cltv it was asked for).",
     assumptions=[
